@@ -1,5 +1,5 @@
 #!/usr/bin/env bash
-# tools/seed_eval.sh <Cxx> <k> [extra property ids...]
+# tools/seed_eval.sh <Cxx> <k> [extra property ids...]     (env ROUND=r2 -> stored as seeded/Cxx-r2-k)
 # Takes the k-th seeded change written by a sub-agent for property Cxx (/tmp/seedwork/Cxx/out),
 # stores it under /verif/seeded/Cxx-k/, confirms in a scratch worktree that (1) the patch applies,
 # (2) the existing suite still passes, (3) the demonstration fails with the patch and passes
@@ -7,7 +7,8 @@
 set -u
 ID="$1"; K="$2"; shift 2
 SRC=/tmp/seedwork/$ID/out
-DST=/verif/seeded/$ID-$K
+ROUND="${ROUND:-}"
+if [ -n "$ROUND" ]; then DST=/verif/seeded/$ID-$ROUND-$K; else DST=/verif/seeded/$ID-$K; fi
 mkdir -p "$DST"
 if [ -f "$SRC/patch_$K.diff" ]; then
   cp "$SRC/patch_$K.diff" "$DST/patch.diff"; cp "$SRC/demo_$K.rs" "$DST/demo.rs"; cp "$SRC/meta_$K.json" "$DST/meta.agent.json"
